@@ -75,6 +75,8 @@ def shards(tier):
             out.append({'kind': 'rot', 'rot': k, 'shape': s})
     for f in range(len(PRINT_SIZES)):
         out.append({'kind': 'adaptive', 'first': f})
+    for n in (130, 260, 300):
+        out.append({'kind': 'many', 'n': n})
     return out
 
 
@@ -83,6 +85,10 @@ def run_shard(shard, ctx, tier):
     import sys
     mod = sys.modules[__name__]
     b = BOUNDS[tier]
+    if shard['kind'] == 'many':
+        for ds in (1, 2):
+            guarded_check(mod, {'many': shard['n'], 'ds': ds}, ctx)
+        return
     if shard['kind'] == 'single':
         for x0, sl, th, ht, ep in itertools.product(range(len(X0S)), range(len(SLOPES)), range(len(THICK)), range(len(HTS)), (0, 1)):
             for ds in b['ds_single']:
@@ -403,7 +409,27 @@ def check_rot(case, ctx):
         ctx.nontrivial((k, case['shape'], ds, tuple(case['combo'])), 'rotated-non-square-pages')
 
 
+def check_many(case, ctx):
+    """a tall map with more than 127 / 255 separate ridges (component labels beyond the range of narrow integer types)"""
+    n, ds = case['many'], case['ds']
+    shape = (14 * n + 20, 96)
+    ridges = [{'row': 10 + 14 * i, 'x0': 8 + 4 * (i % 2), 'x1': 70 + (i % 3) * 6, 'slope': 0.0, 'thick': 1, 'h': (4.0 + (i % 2), 2.0), 'ep': False}
+              for i in range(n)]
+    ctx.state(('many', n, ds))
+    maps = paint(ridges, shape)
+    ctx.reseed()
+    b_list, h_list, t_list = engine().parse(maps.copy(), ds)
+    ctx.executed()
+    desc = f'{n} horizontal ridges, 14 rows apart, on a {shape[0]} x {shape[1]} map, ds={ds}'
+    if check_lines(b_list, h_list, t_list, ridges, ds, ctx, f'{ID}/parse/many-ridges', desc, case):
+        ctx.outcome(('many', len(b_list)))
+        ctx.nontrivial(('many', n, ds), 'several-ridges')
+        ctx.tag('more-than-255-ridges' if n > 255 else 'more-than-127-ridges')
+
+
 def check_case(case, ctx):
+    if 'many' in case:
+        return check_many(case, ctx)
     if 'adaptive' in case:
         return check_adaptive(case, ctx)
     if 'rot' in case:
@@ -423,5 +449,5 @@ def describe(tier):
         'assumptions': ['end points within 3 map px, rows within (1 + thickness/2) map px (+ slope x 3), heights exact for constant maps',
                         'the rotated pass is compared with the exact inverse rot90 of the layout decoded from the rotated image, tolerance 1 px'],
         'min_nontrivial': 100, 'required_tags': ['several-ridges', 'with-end-point-responses', 'sloped-ridges', 'rotated-non-square-pages',
-                          'two-lines-starting-on-the-same-row', 'print-size-changes-between-pages', 'adaptive-factor-changed', 'page-exceeds-the-pixel-budget'],
+                          'two-lines-starting-on-the-same-row', 'print-size-changes-between-pages', 'adaptive-factor-changed', 'page-exceeds-the-pixel-budget', 'more-than-255-ridges'],
     }
